@@ -42,7 +42,7 @@ inductive St where
 
 /-- what the caller does with the returned `suspend_point` -/
 inductive Mode where
-  | discard   -- destructor / `clear()` / `coro_queue::resume(h)`
+  | discard   -- destructor (also when run by stack unwinding) / `clear()` / `coro_queue::resume(h)`
   | await     -- `co_await sp`
   deriving DecidableEq, Repr, Inhabited
 
@@ -59,7 +59,8 @@ inductive Act where
   | join (d : Nat)      -- `co_await` the future returned by an earlier `start d` of the same coroutine
   | fin                 -- `co_return`: `final_awaiter`
   | enter               -- ordinary code: begin of an `install_queue_and_call(fn)` body
-  | leave               -- ordinary code: end of that body (the trailer runs)
+  | leave               -- ordinary code: end of that body, by return or by an exception (`trailer::~trailer`
+                        -- runs its function unconditionally, also during stack unwinding)
   deriving DecidableEq, Repr, Inhabited
 
 inductive Base where
